@@ -167,7 +167,8 @@ def constants_family(rep):
             rep.fail(f"C07/roundtrip/emitted-file-{ld.get('r')}/{fam}", f"{st}: the file the compiler emitted does not load: {ld}", replay); continue
         cv = ld.get("consts", {})
         if cv.get("r") != "ok":
-            fsig = f"{cv.get('class')}/{fam.split('/')[0]}" if cv.get("class") == "UnsupportedConstantType" else f"{cv.get('class') or cv.get('r')}/{fam}"
+            # records and maps do not decode for ANY element kind (known): keyed by the container; everything else by container/kind
+            fsig = fam.split("/")[0] if fam.split("/")[0] in ("const-record", "const-map") else fam
             rep.fail(f"C07/roundtrip/constants-do-not-decode/{fsig}", f"{st}: the constants of the emitted file do not decode: {cv}", replay); continue
         if not (ld.get("reenc", {}).get("r") == "ok" and ld["reenc"].get("eq")):
             rep.fail(f"C07/roundtrip/reencode/{fam}", f"{st}: decode + re-encode does not reproduce the emitted bytes", replay); continue
